@@ -26,6 +26,16 @@ CLAIMED = {
             "For generated loop/call programs whose cost T is measured by a limit-free run (optionally after a prelude evaluation that shifts the 1000-tick phase), every budget in the boundary set must give error <=> cumulative ticks > budget, overshoot <= 1000, a prefix transcript, unchanged behaviour within the limit and a re-usable evaluator; cancellation raised at chosen tick positions (per-tick hook), at the n-th poll, or from inside the program must be honoured within 1000 ticks in the same evaluation; for 16 recursion shapes x limits {1,2,3,5,10,50,200} all depths around the threshold must show a single threshold, StackOverflow as the error, the same threshold on all pure-def call paths, and unbounded recursion must never crash. Tick counts must be repeatable, linear in loop bounds and count every call path.",
             "T is measured, not assumed; the documented check interval (1000) is the only constant. Native-callback paths are only bounded (they may use several frames per level). check_tick_count_limit()'s result type is not exported, only its presence is checked.",
             "DESIGN.md §6 C15"),
+    "C04": ("exploration",
+            "deterministic simulation: freeze point chosen at any statement boundary (like a crash point), seeded attack histories from persistent / fresh / second-level importers, in-module pre-freeze observation as the reference model",
+            "A generated exporter module is frozen after a seeded prefix of its statements (optionally with a collection forced at every safepoint). An observation program run inside the module just before freezing is the model; the same observation through an importer after freezing must be identical. A seeded history of attacks (the mutation catalogue x every reachability path found by a depth-bounded walk: exports, elements, dict values, struct/record fields, tuple members, values returned by exported functions, re-exports of a frozen importer) follows: every data-path mutation must error, a copy must be mutable, and after every operation a fresh observer must still see the pre-freeze transcript.",
+            "Sampling of modules x freeze points x attack histories. The observation program is itself Starlark (same implementation on both sides), so a bug that changes a value identically before and after freeze is not visible here.",
+            "DESIGN.md §6 C04"),
+    "C13": ("exploration",
+            "deterministic simulation: seeded histories over a heap dependency graph with seeded drop order and OS-thread placement, poisoned + quarantined (or really re-used) arenas, content re-check after every operation",
+            "Histories of up to 40 operations (build-and-freeze modules loading from live frozen modules, clone, owned handles incl. mapped ones, add_to_heap into new modules, import_public_symbols, Globals from frozen values, modules on such Globals, from_globals, drop of any entity), each placed on one of 1-4 real OS threads and run to completion; every arena is poisoned at drop and quarantined (2/3) or really re-used through the per-thread chunk cache (1/3). After every operation every value reachable from every live entity is re-encoded and exported functions re-called; results must equal those recorded at creation.",
+            "Only safe documented API is used. A forgotten heap edge is detected when the referenced heap is dropped while a dependant is still observed, which the drop-order search makes likely, not certain.",
+            "DESIGN.md §6 C13"),
 }
 
 NOT_APPLICABLE = {
@@ -42,9 +52,7 @@ NOT_APPLICABLE = {
 
 # Properties planned (DESIGN.md) but whose check is not built yet: listed as not claimed *yet*.
 PENDING = {
-    "C04": "claimed in DESIGN.md but its check is not built yet in this commit; not claimed until it is",
     "C11": "claimed in DESIGN.md but its check is not built yet in this commit; not claimed until it is",
-    "C13": "claimed in DESIGN.md but its check is not built yet in this commit; not claimed until it is",
     "C14": "claimed in DESIGN.md but its check is not built yet in this commit; not claimed until it is",
     "C18": "claimed in DESIGN.md but its check is not built yet in this commit; not claimed until it is",
     "C19": "claimed in DESIGN.md but its check is not built yet in this commit; not claimed until it is",
